@@ -638,13 +638,47 @@ def rule_iso(ctx) -> None:
     inst = any("id(store)" in src(x.value) or "_uid" in src(x.value) or "_instance" in src(x.value) for x in ck)
     ctx.check(content or inst, "C05.ISO", "T1/_T1_CACHE", inner.loc(ck[0]) if ck else inner.loc(), "the process-global T1 cache is keyed by a content-derived graph etag" if content else "the T1 key carries a store-instance discriminator",
               "_T1_CACHE is process-global but its key has neither a content-derived graph version nor a store-instance discriminator: independent engine states in one process share entries")
-    t2 = ctx.func(T2)
-    ck2 = [x for x in walk_no_defs(t2.node) if isinstance(x, ast.Assign) and src(x.targets[0]) == "ckey"]
-    inst2 = any("_uid" in src(x.value) or "id(index)" in src(x.value) for x in ck2)
-    ctx.check(inst2, "C05.ISO", "T2/_T2_CACHE", t2.loc(ck2[0]) if ck2 else t2.loc(), "the process-global T2 cache key carries an index-instance discriminator next to the per-instance version",
-              "_T2_CACHE is process-global but keyed by the per-instance index version only: a second engine state with the same number of adds is served the first state's episodes")
-    idx = ctx.func(INDEX + ".__init__")
-    ctx.check("_uid" in src(idx.node), "C05.ISO", f"{INDEX}/instance-uid", idx.loc(), "every index instance gets a process-local uid", "InMemoryIndex has no instance discriminator")
+    # the index identity: the attribute __init__ takes from a class-level counter
+    meths = ctx.prog.methods(INDEX)
+    idx = meths["__init__"]
+    counters = {src(x.target) for x in walk_no_defs(idx.node) if isinstance(x, ast.AugAssign) and isinstance(x.target, ast.Attribute) and src(x.target.value) != "self"}
+    ident = {t.attr for x in walk_no_defs(idx.node) if isinstance(x, (ast.Assign, ast.AnnAssign)) and x.value is not None and src(x.value) in counters
+             for t in (x.targets if isinstance(x, ast.Assign) else [x.target]) if isinstance(t, ast.Attribute) and src(t.value) == "self"}
+    ctx.check(bool(ident), "C05.ISO", f"{INDEX}/instance-uid", idx.loc(), f"every index instance takes a process-local identity from a class counter ({sorted(ident)})", "InMemoryIndex has no instance discriminator")
+    # ... which a copy must not inherit: copy.copy / copy.deepcopy / unpickling bypass __init__
+    copy_hooks = [m for n, m in meths.items() if n in ("__setstate__", "__deepcopy__", "__copy__", "__reduce__", "__reduce_ex__", "__getstate__")]
+    refreshed = any(isinstance(x, (ast.Assign, ast.AnnAssign)) and any(isinstance(t, ast.Attribute) and src(t.value) in ("self", "new", "clone", "other") and t.attr in ident
+                                                                       for t in (x.targets if isinstance(x, ast.Assign) else [x.target]))
+                    for m in copy_hooks for x in walk_no_defs(m.node))
+    dropped = any(isinstance(x, ast.Call) and call_tail(x) == "pop" and x.args and const_str(x.args[0]) in ident for m in copy_hooks for x in walk_no_defs(m.node))
+    ctx.check(bool(ident) and (refreshed or dropped), "C05.ISO", f"{INDEX}/identity-not-inherited-by-copies", idx.loc(),
+              "a copy of an index (copy / deepcopy / unpickle) is given an identity of its own",
+              f"{sorted(ident)} is assigned in __init__ only: copy.deepcopy and pickle rebuild the object without __init__, so a forked engine state keeps the identity and the version of the original - "
+              "after each fork adds a different episode both have the same (version, identity) and the process-global T2 cache serves one state's memories to the other")
+    # the keys of the caches that outlive / span index objects carry that identity, and never an address
+    n_keys = 0
+    for tag, fn, pred, argi in (("T2", ctx.func(T2), lambda c: call_tail(c) == "get" and src(c.func.value) == "cache" and len(c.args) >= 1, 0),
+                                ("TURN", ctx.func(RUN_TURN), lambda c: call_tail(c) == "get" and src(c.func.value) == "cm" and len(c.args) == 2, 1)):
+        cfg = ctx.cfg(fn)
+        site = next(((n, c) for n in cfg.nodes for c in node_calls(n) if pred(c)), None)
+        if site is None:
+            raise AnalysisError(f"anchor-vanished: cache lookup in {fn.qual}")
+        n_keys += 1
+        n, c = site
+        sl = ctx.rd(fn).slice([c.args[argi]], n)
+        exprs = list(sl.nodes())
+        for call in [x for x in exprs if isinstance(x, ast.Call)]:
+            r = ctx.prog.callee(fn, call)
+            if r and r[1] in ctx.prog.funcs and len(list(ast.walk(ctx.prog.funcs[r[1]].node))) < 400:
+                exprs += list(ast.walk(ctx.prog.funcs[r[1]].node))
+        addr = next((x for x in exprs if isinstance(x, ast.Call) and isinstance(x.func, ast.Name) and x.func.id == "id" and len(x.args) == 1), None)
+        has_ident = any((isinstance(x, ast.Attribute) and x.attr in ident) or (isinstance(x, ast.Constant) and x.value in ident) for x in exprs)
+        ctx.check(has_ident, "C05.ISO", f"{tag}/index-identity-in-key", fn.loc(c), "the key carries the index's instance identity next to its per-instance version",
+                  "the cache spans index objects but its key has the per-instance version only: a second engine state with the same number of adds is served the first state's episodes")
+        ctx.check(addr is None, "C05.ISO", f"{tag}/no-address-in-key", fn.loc(addr) if addr is not None else fn.loc(c), "no key part is an object address",
+                  (f"`{src(addr)[:40]}` puts an object's address into the key: CPython gives the address of a dropped object to the next one, so in a warm process a new index (one without the "
+                   "identity attribute: LanceIndex, any MemoryIndex implementation) inherits the cache entries of a dead one - another world's retrieval is served") if addr is not None else "")
+    ctx.floor("C05.ISO", "cache keys spanning index objects", n_keys, 2)
 
 
 _EFMEMO: dict = {}
